@@ -1477,6 +1477,11 @@ mutual
       split at h
       · simp at h
       · simp at h; rw [← h]
+    | .assign sym, fl, fl', h, s => by
+      simp only [lockStmt] at h
+      split at h
+      · simp at h
+      · simp at h; rw [← h]
     | .loop iter target body, fl, fl', h, s => by
       simp only [lockStmt] at h
       split at h
@@ -1509,10 +1514,11 @@ mutual
 end
 
 /-- the body contains, at any nesting depth under loops that do not re-use `s` as their iterator, a mutating member call
-on a receiver hanging off the symbol `s` -/
+on a receiver hanging off the symbol `s`, or an assignment `s = …` -/
 inductive Touches (s : Nat) : List LStmt → Prop
   | here (op : MemberOp) (recv : RecvExp) (rest : List LStmt) :
       op.mutating = true → recv.symbolId = some s → Touches s (.call op recv :: rest)
+  | assigned (rest : List LStmt) : Touches s (.assign s :: rest)
   | nested (iter : Nat) (target : RecvExp) (body rest : List LStmt) :
       iter ≠ s → Touches s body → Touches s (.loop iter target body :: rest)
   | later (st : LStmt) (rest : List LStmt) : Touches s rest → Touches s (st :: rest)
@@ -1527,6 +1533,9 @@ theorem locked_body_refused (s : Nat) : ∀ (body : List LStmt), Touches s body 
   | here op recv rest hm hs =>
     intro fl hl
     simp [lockBody, lockStmt, lockRefuses, recvLocked, hm, hs, hl]
+  | assigned rest =>
+    intro fl hl
+    simp [lockBody, lockStmt, hl]
   | nested iter target body rest hne _ ih =>
     intro fl hl
     have := ih (forallEnter iter target.symbolId fl) ((forallEnter_locks iter s fl (Ne.symm hne)).2.1 _ s (Ne.symm hne) hl)
@@ -1558,6 +1567,11 @@ example : lockStmt (.loop 2 (.var 0) [.loop 3 (.var 1) [.call (.m .count) (.var 
     (.nested 3 (.var 1) _ _ (by decide) (.later _ _ (.here _ _ _ rfl rfl)))
 example : (lockStmt (.loop 2 (.var 0) [.call (.m .delete) (.var 1), .call (.m .concat) (.var 2)]) (fun _ => false)).isSome = true := by
   decide
+/-- the lock on assignment: `forall e in t loop forall f in u loop t = u; end loop; end loop` is refused, `u = t;` is not
+(inside `forall e in t` only) -/
+example : lockStmt (.loop 2 (.var 0) [.loop 3 (.var 1) [.assign 0]]) (fun _ => false) = none :=
+  (forall_table_cannot_change 2 0 _ _ (by decide)).1 (.nested 3 (.var 1) _ _ (by decide) (.assigned _))
+example : (lockStmt (.loop 2 (.var 0) [.assign 1, .assign 2]) (fun _ => false)).isSome = true := by decide
 
 /-! ### constructors: `tab(n, x)`, `tup(…)` -/
 
@@ -1624,7 +1638,7 @@ theorem tab_refines (P) (n : Int64) (x : Val) (hx : UniformIn P x) (hz : KF.hash
         have h2 : ((Val.tup decl items).type == ({ major := .tup } : Ty)) = false := by
           apply beq_eq_false_iff_ne.mpr
           intro e; apply hmin; have := congrArg Ty.minor e; simpa [Val.type] using this
-        have h3 : ((Val.tup decl items).type.level == Gen.TYPE_LEVEL_MAX - 1) = false := by
+        have h3 : ¬ ((Val.tup decl items).type.level ≥ Gen.TYPE_LEVEL_MAX - 1) := by
           simp [Val.type, makeTupleTy_level, Gen.TYPE_LEVEL_MAX]
         simp only [h1, h2, h3, Bool.or_self, Bool.false_eq_true, ↓reduceIte]
       have hty : (Val.tup decl items).type = (makeTupleTy decl 1).levelDown := by
@@ -1649,7 +1663,7 @@ theorem tab_refines (P) (n : Int64) (x : Val) (hx : UniformIn P x) (hz : KF.hash
         have h2 : ((Val.tab t decl es).type == ({ major := .tup } : Ty)) = false := by
           apply beq_eq_false_iff_ne.mpr
           intro e; have := congrArg Ty.level e; simp [Val.type, hl] at this
-        have h3 : ((Val.tab t decl es).type.level == Gen.TYPE_LEVEL_MAX - 1) = true := by
+        have h3 : (Val.tab t decl es).type.level ≥ Gen.TYPE_LEVEL_MAX - 1 := by
           simp [Val.type, hl, Gen.TYPE_LEVEL_MAX]
         simp only [h1, h2, h3, Bool.or_self, Bool.false_eq_true, ↓reduceIte]
       · simp only [h254, ↓reduceIte]
@@ -1659,8 +1673,8 @@ theorem tab_refines (P) (n : Int64) (x : Val) (hx : UniformIn P x) (hz : KF.hash
           have h2 : ((Val.tab t decl es).type == ({ major := .tup } : Ty)) = false := by
             apply beq_eq_false_iff_ne.mpr
             intro e; have := congrArg Ty.level e; simp [Val.type] at this; omega
-          have h3 : ((Val.tab t decl es).type.level == Gen.TYPE_LEVEL_MAX - 1) = false := by
-            simp only [Val.type, Gen.TYPE_LEVEL_MAX, beq_eq_false_iff_ne]; omega
+          have h3 : ¬ ((Val.tab t decl es).type.level ≥ Gen.TYPE_LEVEL_MAX - 1) := by
+            simp only [Val.type, Gen.TYPE_LEVEL_MAX]; omega
           simp only [h1, h2, h3, Bool.or_self, Bool.false_eq_true, ↓reduceIte]
           rcases hh'.2.2.2 with ⟨a1, a2, a3⟩ | ⟨a1, a2⟩
           · have hm : (t.level + 1) % 256 = t.level + 1 := by omega
@@ -1719,7 +1733,7 @@ theorem tab_refines (P) (n : Int64) (x : Val) (hx : UniformIn P x) (hz : KF.hash
             have h2 : ((Val.null ty).type == ({ major := .tup } : Ty)) = false := by
               apply beq_eq_false_iff_ne.mpr
               intro e; have := congrArg Ty.major e; simp [Val.type] at this; exact htup this
-            have h3 : ((Val.null ty).type.level == Gen.TYPE_LEVEL_MAX - 1) = true := by
+            have h3 : (Val.null ty).type.level ≥ Gen.TYPE_LEVEL_MAX - 1 := by
               simp [Val.type, hl, Gen.TYPE_LEVEL_MAX]
             simp only [h1, h2, h3, Bool.or_self, Bool.false_eq_true, ↓reduceIte]
           · simp only [h254, ↓reduceIte]
@@ -1729,8 +1743,8 @@ theorem tab_refines (P) (n : Int64) (x : Val) (hx : UniformIn P x) (hz : KF.hash
               have h2 : ((Val.null ty).type == ({ major := .tup } : Ty)) = false := by
                 apply beq_eq_false_iff_ne.mpr
                 intro e; have := congrArg Ty.major e; simp [Val.type] at this; exact htup this
-              have h3 : ((Val.null ty).type.level == Gen.TYPE_LEVEL_MAX - 1) = false := by
-                simp only [Val.type, Gen.TYPE_LEVEL_MAX, beq_eq_false_iff_ne]; omega
+              have h3 : ¬ ((Val.null ty).type.level ≥ Gen.TYPE_LEVEL_MAX - 1) := by
+                simp only [Val.type, Gen.TYPE_LEVEL_MAX]; omega
               simp only [h1, h2, h3, Bool.or_self, Bool.false_eq_true, ↓reduceIte]
               show Res.ok (levelUp8 ty, []) = _
               rw [levelUp8_eq ty hlv']
@@ -1756,51 +1770,287 @@ example : (match biTab (m := Res) [.ok (.int 1), .ok (.null { major := .int, lev
     | .err c _ => c == Gen.EXC_RT_OUT_OF_DIMENSION | _ => false) = true ∧
     acceptTab [Ty.int, { major := .int, level := 255 }] = some Gen.EXC_PARSE_OUT_OF_DIMENSION := by decide
 
+theorem tabHeader_level (x : Val) (t : Ty) (decl : List Ty) (h : tabHeader x = .ok (t, decl)) :
+    1 ≤ t.level ∧ t.level ≤ 254 ∧ x.type.level ≤ 253 ∧ KF.hashZero x = false := by
+  unfold tabHeader at h
+  split at h
+  · simp at h
+  · rename_i hop
+    split at h
+    · simp at h
+    · rename_i hlv
+      simp only [Gen.TYPE_LEVEL_MAX] at hlv
+      have hl : x.type.level ≤ 253 := by omega
+      have hz : KF.hashZero x = false := by
+        cases x with
+        | tup d items =>
+          simp only [KF.hashZero, Bool.and_eq_false_iff]
+          by_cases hd : d = []
+          · left; simp [hd]
+          · right
+            apply beq_eq_false_iff_ne.mpr
+            intro hm
+            apply hop
+            have : (Val.tup d items).type = ({ major := .tup } : Ty) := by
+              apply Ty.ext'
+              · exact makeTupleTy_major d 0
+              · exact hm
+              · exact makeTupleTy_level d 0
+            simp [this]
+        | _ => rfl
+      refine ⟨?_, ?_, hl, hz⟩ <;>
+      · cases x with
+        | tup d items => simp at h; rw [← h.1, makeTupleTy_level]; omega
+        | tab t' d' es' =>
+          have hl' : t'.level ≤ 253 := hl
+          have hm : (t'.level + 1) % 256 = t'.level + 1 := by omega
+          simp only at h
+          split at h
+          · simp at h; rw [← h.1, makeTupleTy_level, hm]; omega
+          · simp at h; rw [← h.1]; simp only [levelUp8, hm]; omega
+        | _ =>
+          simp at h
+          rw [← h.1]
+          simp only [levelUp8]
+          omega
+
+theorem specTab_some (n : Int64) (x : Val) (hu : uniform x = true) (h0 : 0 ≤ n.toInt) (h1 : n.toInt ≤ 1048576)
+    (hnt : ∀ ty, x = .null ty → ty.major ≠ .tup) : ∃ o, Spec.specTab [.int n, x] = some o := by
+  unfold Spec.specTab
+  have a : ¬ n.toInt < 0 := by omega
+  have b : ¬ n.toInt > 1048576 := by omega
+  simp only [hu, Bool.not_true, Bool.false_eq_true, ↓reduceIte, a, b]
+  cases x with
+  | null ty =>
+    have := hnt ty rfl
+    simp only [this, beq_iff_eq, Bool.false_and, Bool.or_false, Bool.false_eq_true, ↓reduceIte]
+    split
+    · exact ⟨_, rfl⟩
+    · split <;> exact ⟨_, rfl⟩
+  | tab t d es => simp only; split <;> exact ⟨_, rfl⟩
+  | _ => exact ⟨_, rfl⟩
+
+/-- **tab_level_bounded** (positive statement after the repair 2c67aef; was the witness `level_limit_wraps` of the former
+finding C09.tab.levelWrap). Whatever the count and the element are (static types known or opaque, null count or not, element
+of any number of dimensions): a value returned by `tab(n, x)` has between 1 and 254 dimensions — the `uint8_t` level never
+wraps —, and for a uniform `x` (not a typed null tuple, which has no declaration) it is uniform. -/
+theorem tab_level_bounded (P : List Ty → Bool) (a0 x r : Val) (h : biTab (m := Res) [.ok a0, .ok x] = .ok r) :
+    1 ≤ r.type.level ∧ r.type.level ≤ 254 ∧
+    (UniformIn P x → (∀ ty, x = .null ty → ty.major ≠ .tup) → UniformIn P r) := by
+  cases hn : a0.isNull with
+  | true =>
+    unfold biTab at h
+    simp only [bind, hn, ↓reduceIte, pure] at h
+    split at h
+    · simp [rerr, liftR, liftM, monadLift] at h
+    · rename_i hl
+      simp only [Gen.TYPE_LEVEL_MAX] at hl
+      injection h with h
+      have hm : (x.type.level + 1) % 256 = x.type.level + 1 := by omega
+      rw [← h]
+      show 1 ≤ (levelUp8 x.type).level ∧ (levelUp8 x.type).level ≤ 254 ∧ _
+      simp only [levelUp8, hm]
+      exact ⟨by omega, by omega, fun _ _ => by simp [UniformIn]⟩
+  | false =>
+    -- the count is an integer
+    have hint : ∃ n, a0 = .int n := by
+      unfold biTab at h
+      simp only [bind, hn, Bool.false_eq_true, ↓reduceIte, liftR, liftM, monadLift, MonadLift.monadLift] at h
+      cases ha : a0.asInt with
+      | ok n =>
+        unfold Val.asInt at ha
+        split at ha
+        · simp at ha
+        · cases a0 <;> simp at ha
+          exact ⟨_, rfl⟩
+      | err c e => rw [ha] at h; simp at h
+      | haz e => rw [ha] at h; simp at h
+      | unmodelled => rw [ha] at h; simp at h
+    obtain ⟨n, rfl⟩ := hint
+    have hneg : ¬ n.toInt < 0 := by
+      intro hc; rw [biTab_neg n x hc] at h; simp at h
+    have hbig : n.toInt ≤ 1048576 := by
+      rcases Int.lt_or_le 1048576 n.toInt with hc | hc
+      · exfalso
+        have b : n > 1048576 := by
+          show (1048576 : Int64) < n
+          rw [Int64.lt_iff_toInt_lt]; exact hc
+        have a : ¬ (n < 0) := by rw [Int64.lt_iff_toInt_lt]; show ¬ n.toInt < 0; omega
+        have e : (Val.int n).asInt = .ok n := rfl
+        unfold biTab at h
+        simp [bind, Val.isNull, liftR, liftM, monadLift, MonadLift.monadLift, e, a, b] at h
+      · exact hc
+    have h0 : 0 ≤ n.toInt := by omega
+    cases hh : tabHeader x with
+    | err c e => rw [biTab_header_err n x c e h0 hbig hh] at h; simp at h
+    | haz e => exact absurd hh (by unfold tabHeader; split; simp; split; simp; split <;> (try split) <;> simp)
+    | unmodelled => exact absurd hh (by unfold tabHeader; split; simp; split; simp; split <;> (try split) <;> simp)
+    | ok td =>
+      obtain ⟨t, decl⟩ := td
+      obtain ⟨hl1, hl2, hxl, hz⟩ := tabHeader_level x t decl hh
+      -- the result is a table with this header
+      have hshape : ∃ es, r = .tab t decl es := by
+        have a : ¬ (n < 0) := by rw [Int64.lt_iff_toInt_lt]; show ¬ n.toInt < 0; omega
+        have b : ¬ (n > 1048576) := by
+          show ¬ ((1048576 : Int64) < n)
+          rw [Int64.lt_iff_toInt_lt]; show ¬ (1048576 : Int) < n.toInt; omega
+        have e : (Val.int n).asInt = .ok n := rfl
+        unfold biTab at h
+        simp only [bind, Val.isNull, Bool.false_eq_true, ↓reduceIte, liftR, liftM, monadLift, MonadLift.monadLift, e, a, b, hh, pure] at h
+        split at h
+        · injection h with h; exact ⟨_, h.symm⟩
+        · cases hf : tabFill (m := Res) (Res.ok x) (levelDown8 t) (idxOf n - 1) [x] with
+          | ok es => rw [hf] at h; simp only at h; injection h with h; exact ⟨_, h.symm⟩
+          | err c e => rw [hf] at h; simp at h
+          | haz e => rw [hf] at h; simp at h
+          | unmodelled => rw [hf] at h; simp at h
+      obtain ⟨es, rfl⟩ := hshape
+      refine ⟨hl1, hl2, ?_⟩
+      intro hx hnt
+      have huni := uniformIn_uniform P _ hx
+      have hsat := tab_refines P n x hx hz (by omega) hbig
+      obtain ⟨o, ho⟩ := specTab_some n x huni h0 hbig hnt
+      rw [ho] at hsat
+      cases o with
+      | ok v w => simp only [TabSat] at hsat; rw [h] at hsat; injection hsat.1 with e; rw [e]; exact hsat.2
+      | reject e =>
+        cases e <;> simp only [TabSat] at hsat
+        · rw [h] at hsat; simp at hsat
+        · obtain ⟨c, a, hc⟩ := hsat; rw [h] at hc; simp at hc
+        · obtain ⟨c, a, hc⟩ := hsat; rw [h] at hc; simp at hc
+        · obtain ⟨c, a, hc⟩ := hsat; rw [h] at hc; simp at hc
+      | either v w => exact absurd hsat id
+
+/-- the former witnesses of C09.tab.levelWrap are refused now, on both paths -/
+example : (match biTab (m := Res) [.ok (.null Ty.int), .ok (.null { major := .int, level := 254 })] with
+      | .err c _ => c == Gen.EXC_RT_OUT_OF_DIMENSION | _ => false) = true ∧
+    (match biTab (m := Res) [.ok (.int 0), .ok (.null { major := .int, level := 255 })] with
+      | .err c _ => c == Gen.EXC_RT_OUT_OF_DIMENSION | _ => false) = true ∧
+    biTab (m := Res) [.ok (.null Ty.int), .ok (.null { major := .int, level := 253 })] = .ok (.null { major := .int, level := 254 }) := by
+  refine ⟨by decide, by decide, by rfl⟩
+example : ∀ r, biTab (m := Res) [.ok (.int 2), .ok (.int 7)] = .ok r → UniformIn onlyIS r :=
+  fun r h => (tab_level_bounded onlyIS _ _ r h).2.2 (by decide) (fun ty e => by simp at e)
+
+/-! ### tab(n, e) with an element expression whose value changes between evaluations -/
+
+theorem tabFill_stream (ty : Ty) : ∀ (k : Nat) (acc vs : List Val), k ≤ vs.length →
+    (tabFill (m := StateT (List Val) Res) nextVal ty k acc).run vs =
+      if (vs.take k).all (fun v => v.type == ty) then .ok (acc ++ vs.take k, vs.drop k)
+      else .err Gen.EXC_RT_VARYING_COLLECTION := by
+  intro k
+  induction k with
+  | zero => intro acc vs _; simp [tabFill, StateT.run, pure, StateT.pure]
+  | succ k ih =>
+    intro acc vs hl
+    cases vs with
+    | nil => simp at hl
+    | cons v vs =>
+      have hl' : k ≤ vs.length := by simpa using hl
+      have ih' := ih (acc ++ [v]) vs hl'
+      simp only [StateT.run] at ih' ⊢
+      simp only [tabFill, bind, StateT.bind, nextVal, List.take_succ_cons, List.all_cons, List.drop_succ_cons]
+      by_cases hv : v.type = ty
+      · have h1 : (v.type != ty) = false := by simp [hv]
+        have h2 : (v.type == ty) = true := by simp [hv]
+        simp only [h1, h2, Bool.false_eq_true, ↓reduceIte, Bool.true_and]
+        rw [ih']
+        split <;> simp
+      · have : (v.type != ty) = true := by simpa using hv
+        have h2 : (v.type == ty) = false := by simpa using hv
+        simp [this, h2, rerr, liftR, liftM, monadLift, MonadLift.monadLift, StateT.lift, bind]
+
+theorem tab_varying (n : Int64) (v : Val) (vs : List Val) (t : Ty) (decl : List Ty)
+    (h0 : 1 ≤ n.toInt) (h1 : n.toInt ≤ 1048576) (hh : tabHeader v = .ok (t, decl))
+    (hlen : n.toInt.toNat - 1 ≤ vs.length) :
+    (biTab (m := StateT (List Val) Res) [pure (.int n), nextVal]).run (v :: vs) =
+      if (vs.take (n.toInt.toNat - 1)).all (fun w => w.type == levelDown8 t)
+      then .ok (.tab t decl (v :: vs.take (n.toInt.toNat - 1)), vs.drop (n.toInt.toNat - 1))
+      else .err Gen.EXC_RT_VARYING_COLLECTION := by
+  have a : ¬ (n < 0) := by rw [Int64.lt_iff_toInt_lt]; show ¬ n.toInt < 0; omega
+  have b : ¬ (n > 1048576) := by
+    show ¬ ((1048576 : Int64) < n)
+    rw [Int64.lt_iff_toInt_lt]; show ¬ (1048576 : Int) < n.toInt; omega
+  have hz : (n == 0) = false := by
+    apply beq_eq_false_iff_ne.mpr; intro e; subst e; simp at h0
+  have e : (Val.int n).asInt = .ok n := rfl
+  have hf := tabFill_stream (levelDown8 t) (idxOf n - 1) [v] vs (by unfold idxOf; exact hlen)
+  simp only [StateT.run] at hf ⊢
+  unfold idxOf at hf
+  by_cases hc : ((vs.take (n.toInt.toNat - 1)).all fun w => w.type == levelDown8 t) = true
+  · rw [if_pos hc] at hf
+    rw [if_pos hc]
+    unfold biTab
+    simp only [bind, StateT.bind, pure, StateT.pure, Val.isNull, Bool.false_eq_true, ↓reduceIte, liftR, liftM, monadLift,
+      MonadLift.monadLift, StateT.lift, e, a, b, hh, hz, nextVal, idxOf, hf]
+    rfl
+  · rw [if_neg hc] at hf
+    rw [if_neg hc]
+    unfold biTab
+    simp only [bind, StateT.bind, pure, StateT.pure, Val.isNull, Bool.false_eq_true, ↓reduceIte, liftR, liftM, monadLift,
+      MonadLift.monadLift, StateT.lift, e, a, b, hh, hz, nextVal, idxOf, hf]
+
+/-- a varying element expression: `tab(3, e)` with e = 1, 2, "a" is refused with VARYING_COLLECTION; with e = 1, 2, 3 it is the
+table of the three values (the first evaluation fixes the item type, every later one must have exactly that type) -/
+example : (match biTabScript (.int 3) [.int 1, .int 2, .str [97]] with | .err c _ => c == Gen.EXC_RT_VARYING_COLLECTION | _ => false) = true ∧
+    biTabScript (.int 3) [.int 1, .int 2, .int 3] = .ok (ti1 [.int 1, .int 2, .int 3]) := by
+  refine ⟨by decide, by rfl⟩
+
+/-- an item that `tup` accepts at run time: typed, not a table, not a tuple (builtin_tup.cpp value(), 4db32b5) -/
+def tupItemOk (v : Val) : Bool := v.type.major != .none && !(decide (v.type.level > 0) || v.type.major == .tup)
+
 theorem tupItems_const : ∀ (vs acc : List Val),
     tupItems (m := Res) (vs.map fun v => Res.ok v) acc =
-      if vs.all (fun v => v.type.major != .none) then .ok (acc ++ vs) else .err Gen.EXC_RT_COMPOUND_OPAQUE := by
+      (match vs.find? (fun v => !tupItemOk v) with
+        | none => .ok (acc ++ vs)
+        | some v => if v.type.major == .none then .err Gen.EXC_RT_COMPOUND_OPAQUE else .err Gen.EXC_RT_FUNC_ARG_TYPE_S) := by
   intro vs
   induction vs with
   | nil => intro acc; simp [tupItems, pure]
   | cons v vs ih =>
     intro acc
-    simp only [List.map_cons, tupItems, bind, List.all_cons]
+    simp only [List.map_cons, tupItems, bind, List.find?_cons]
     by_cases h : v.type.major = .none
-    · simp [h, rerr, liftR, liftM, monadLift, MonadLift.monadLift]
+    · simp [h, tupItemOk, rerr, liftR, liftM, monadLift]
     · have h' : (v.type.major == Major.none) = false := by simpa using h
-      simp only [h', Bool.false_eq_true, ↓reduceIte, ih]
-      simp [h]
+      by_cases h2 : (decide (v.type.level > 0) || v.type.major == .tup) = true
+      · simp [h', h2, tupItemOk, rerr, liftR, liftM, monadLift]
+      · have hok : tupItemOk v = true := by simp [tupItemOk, h]; simpa using h2
+        simp only [h', Bool.false_eq_true, ↓reduceIte, h2, hok, Bool.not_true, ih]
+        simp
 
-/-- **tup_structure**. `tup(v1, …, vn)` (n ≥ 1): the tuple whose declaration is the list of the items' types, in order, with
-exactly the given items — or COMPOUND_OPAQUE when an item has no type (untyped null); when the items are scalars (what the
-compile-time check `acceptTup` demands of the static types: no table, no tuple — tuple-in-tuple is refused —, no pointer) the
-tuple is uniform. -/
-theorem tup_structure (P : List Ty → Bool) (vs : List Val) (hne : vs ≠ []) :
-    ((∀ v ∈ vs, v.type.major ≠ .none) →
-      biTup (m := Res) (vs.map fun v => Res.ok v) = .ok (.tup (vs.map Val.type) vs) ∧
-      ((∀ v ∈ vs, scalarVal v = true) → P (vs.map Val.type) = true → UniformIn P (.tup (vs.map Val.type) vs))) ∧
-    ((∃ v ∈ vs, v.type.major = .none) →
-      biTup (m := Res) (vs.map fun v => Res.ok v) = .err Gen.EXC_RT_COMPOUND_OPAQUE) ∧
-    (∀ args : List Ty, acceptTup args = some Gen.EXC_PARSE_FUNC_ARG_TYPE_S ↔
-      ∃ t ∈ args, t.level > 0 ∨ t.major = .tup ∨ t.major = .ptr) := by
-  have hmap : (vs.map fun v => Res.ok v) ≠ [] := by simpa using hne
-  have hbi : biTup (m := Res) (vs.map fun v => Res.ok v) =
+theorem biTup_eq (vs : List Val) (hne : vs ≠ []) :
+    biTup (m := Res) (vs.map fun v => Res.ok v) =
       (match tupItems (m := Res) (vs.map fun v => Res.ok v) [] with
         | .ok items => .ok (.tup (items.map Val.type) items)
         | .err c a => .err c a
         | .haz h => .haz h
         | .unmodelled => .unmodelled) := by
-    unfold biTup
-    cases hm : (vs.map fun v => Res.ok v) with
-    | nil => exact absurd hm hmap
-    | cons a b =>
-      simp only [bind, pure]
-      cases tupItems (m := Res) (a :: b) [] <;> rfl
+  have hmap : (vs.map fun v => Res.ok v) ≠ [] := by simpa using hne
+  unfold biTup
+  cases hm : (vs.map fun v => Res.ok v) with
+  | nil => exact absurd hm hmap
+  | cons a b =>
+    simp only [bind, pure]
+    cases tupItems (m := Res) (a :: b) [] <;> rfl
+
+/-- **tup_structure**. `tup(v1, …, vn)` (n ≥ 1): the tuple whose declaration is the list of the items' types, in order, with
+exactly the given items, when every item is typed and neither a table nor a tuple; otherwise COMPOUND_OPAQUE (first offending
+item untyped) or FUNC_ARG_TYPE (first offending item a table / tuple — also at run time since 4db32b5); when the items are
+scalars the tuple is uniform; `acceptTup` refuses exactly static tuple / table / pointer arguments. -/
+theorem tup_structure (P : List Ty → Bool) (vs : List Val) (hne : vs ≠ []) :
+    ((∀ v ∈ vs, tupItemOk v = true) →
+      biTup (m := Res) (vs.map fun v => Res.ok v) = .ok (.tup (vs.map Val.type) vs) ∧
+      ((∀ v ∈ vs, scalarVal v = true) → P (vs.map Val.type) = true → UniformIn P (.tup (vs.map Val.type) vs))) ∧
+    ((∃ v ∈ vs, tupItemOk v = false) →
+      biTup (m := Res) (vs.map fun v => Res.ok v) = .err Gen.EXC_RT_COMPOUND_OPAQUE ∨
+      biTup (m := Res) (vs.map fun v => Res.ok v) = .err Gen.EXC_RT_FUNC_ARG_TYPE_S) ∧
+    (∀ args : List Ty, acceptTup args = some Gen.EXC_PARSE_FUNC_ARG_TYPE_S ↔
+      ∃ t ∈ args, t.level > 0 ∨ t.major = .tup ∨ t.major = .ptr) := by
   refine ⟨?_, ?_, ?_⟩
   · intro hall
-    have hc : vs.all (fun v => v.type.major != .none) = true := by
-      rw [List.all_eq_true]; intro v hv; simpa using hall v hv
-    refine ⟨by rw [hbi, tupItems_const, hc]; simp, ?_⟩
+    have hc : vs.find? (fun v => !tupItemOk v) = none := by
+      rw [List.find?_eq_none]; intro v hv; simp [hall v hv]
+    refine ⟨by rw [biTup_eq vs hne, tupItems_const, hc]; simp, ?_⟩
     intro hsc hP
     unfold UniformIn
     rw [uniformP_tup]
@@ -1812,11 +2062,15 @@ theorem tup_structure (P : List Ty → Bool) (vs : List Val) (hne : vs ≠ []) :
     have := hsc v hv
     cases v <;> simp_all [scalarVal]
   · intro ⟨v, hv, hn⟩
-    have hc : vs.all (fun v => v.type.major != .none) = false := by
-      apply Bool.eq_false_iff.mpr
-      intro h; rw [List.all_eq_true] at h
-      have := h v hv; simp [hn] at this
-    rw [hbi, tupItems_const, hc]; simp
+    cases hf : vs.find? (fun v => !tupItemOk v) with
+    | none =>
+      rw [List.find?_eq_none] at hf
+      have := hf v hv; simp [hn] at this
+    | some w =>
+      rw [biTup_eq vs hne, tupItems_const, hf]
+      by_cases hw : w.type.major = .none
+      · left; simp [hw]
+      · right; simp [hw]
   · intro args
     unfold acceptTup
     constructor
@@ -1834,38 +2088,409 @@ theorem tup_structure (P : List Ty → Bool) (vs : List Val) (hne : vs ≠ []) :
       simp [this]
 
 example : biTup (m := Res) [.ok (.int 1), .ok (.str [97])] = .ok (tIS 1) := by rfl
-/-- tuple-in-tuple and table-in-tuple are refused at compile time; an untyped null at run time -/
+/-- tuple-in-tuple and table-in-tuple are refused at compile time AND at run time; an untyped null at run time -/
 example : acceptTup [Ty.int, makeTupleTy declIS 0] = some Gen.EXC_PARSE_FUNC_ARG_TYPE_S ∧
     acceptTup [{ major := .int, level := 1 }] = some Gen.EXC_PARSE_FUNC_ARG_TYPE_S ∧ acceptTup [Ty.int, Ty.str] = none ∧
     (match biTup (m := Res) [.ok (.int 1), .ok (.null Ty.none)] with
-      | .err c _ => c == Gen.EXC_RT_COMPOUND_OPAQUE | _ => false) = true := by decide
+      | .err c _ => c == Gen.EXC_RT_COMPOUND_OPAQUE | _ => false) = true ∧
+    (match biTup (m := Res) [.ok (.int 1), .ok (tIS 2)] with
+      | .err c _ => c == Gen.EXC_RT_FUNC_ARG_TYPE_S | _ => false) = true := by decide
 
-/-- Witness C09.tab.levelWrap (found by this round). The dimension limit TYPE_LEVEL_MAX = 255 is tested by
-`level() == 254` on the path with a non-null count only: `tab(int(), x)` with `x` of 254 dimensions is a null of 255
-dimensions, and `tab(0, that)` passes the equality test, `levelUp()` wraps the `uint8_t` level to 0 and the result is a
-Collection carried by a `Value` of type *integer* (here: a `.tab` whose type has level 0 — not a uniform value; the Spec
-refuses the call). -/
-theorem level_limit_wraps :
-    biTab (m := Res) [.ok (.null Ty.int), .ok (.null { major := .int, level := 254 })] = .ok (.null { major := .int, level := 255 }) ∧
-    biTab (m := Res) [.ok (.int 0), .ok (.null { major := .int, level := 255 })] = .ok (.tab { major := .int, level := 0 } [] []) ∧
-    biTab (m := Res) [.ok (.null Ty.int), .ok (.null { major := .int, level := 255 })] = .ok (.null { major := .int, level := 0 }) ∧
-    (match Spec.specTab [.int 0, .null { major := .int, level := 255 }] with | some (.reject _) => true | _ => false) = true ∧
-    biTab (m := Res) [.ok (.int 2), .ok (.null { major := .int, level := 255 })] =
-      .ok (.tab { major := .int, level := 0 } [] [.null { major := .int, level := 255 }, .null { major := .int, level := 255 }]) ∧
-    uniform (.tab { major := .int, level := 0 } [] []) = false ∧
-    KF.levelWrap [.int 0, .null { major := .int, level := 255 }] = true := by
-  refine ⟨by rfl, by rfl, by rfl, by decide, by rfl, by decide, by decide⟩
+/-- **tup_never_nested** (positive statement after the repair 4db32b5; was the witness `tup_nesting_accepted` of the former
+finding C09.tup.nested). Whatever the argument values are — static types known or opaque —, a value returned by `tup(…)` is the
+null tuple (no argument) or a tuple with exactly the given items, none of which is a table, a tuple (null tuples included)
+or untyped: a tuple never holds a tuple or a table. -/
+theorem tup_never_nested (vs : List Val) (r : Val) (h : biTup (m := Res) (vs.map fun v => Res.ok v) = .ok r) :
+    (vs = [] ∧ r = .null { major := .tup }) ∨
+    (r = .tup (vs.map Val.type) vs ∧
+      ∀ v ∈ vs, v.type.level = 0 ∧ v.type.major ≠ .tup ∧ v.type.major ≠ .none ∧
+        (∀ d i, v ≠ .tup d i)) := by
+  by_cases hne : vs = []
+  · subst hne
+    left
+    simp [biTup, pure] at h
+    exact ⟨rfl, h.symm⟩
+  · right
+    rw [biTup_eq vs hne, tupItems_const] at h
+    cases hf : vs.find? (fun v => !tupItemOk v) with
+    | some w => rw [hf] at h; by_cases hw : w.type.major = .none <;> simp [hw] at h
+    | none =>
+      rw [hf] at h
+      simp at h
+      refine ⟨h.symm, ?_⟩
+      rw [List.find?_eq_none] at hf
+      intro v hv
+      have := hf v hv
+      simp only [Bool.not_eq_true', Bool.not_eq_false] at this
+      simp only [tupItemOk, Bool.and_eq_true, bne_iff_ne, ne_eq, Bool.not_eq_true', Bool.or_eq_false_iff,
+        decide_eq_false_iff_not, beq_eq_false_iff_ne] at this
+      refine ⟨by omega, this.2.2, this.1, ?_⟩
+      intro d i e
+      subst e
+      exact this.2.2 (makeTupleTy_major d 0)
 
-/-- Witness C09.tup.nested (found by this round). With opaque static argument types (a function parameter) the compile-time
-refusal of tuple / table items does not apply and `tup(1, <tuple>)` builds a tuple holding a tuple — which the manual
-excludes ("Nesting and table are not allowed") and the Spec refuses; with the static type known the same call is refused. -/
-theorem tup_nesting_accepted :
-    biTup (m := Res) [.ok (.int 1), .ok (tIS 2)] = .ok (.tup [Ty.int, makeTupleTy declIS 0] [.int 1, tIS 2]) ∧
-    uniform (.tup [Ty.int, makeTupleTy declIS 0] [.int 1, tIS 2]) = false ∧
-    (match Spec.specTup [.int 1, tIS 2] with | some (.reject _) => true | _ => false) = true ∧
-    acceptTup [Ty.int, makeTupleTy declIS 0] = some Gen.EXC_PARSE_FUNC_ARG_TYPE_S ∧ acceptTup [Ty.none, Ty.none] = none ∧
-    KF.tupNested [.int 1, tIS 2] = true := by
-  refine ⟨by rfl, by decide, by decide, by decide, by decide, by decide⟩
+example : ∀ r, biTup (m := Res) [.ok (.int 1), .ok (.str [97])] = .ok r → r = tIS 1 := by
+  intro r h
+  rcases tup_never_nested [.int 1, .str [97]] r h with ⟨h0, _⟩ | ⟨h1, _⟩
+  · simp at h0
+  · exact h1
+
+/-! ### operation sequences on strings, bytes and tuples -/
+
+/-- a member call with the right number of arguments and uniform arguments -/
+def OpGoodS (P : List Ty → Bool) : Op → Prop
+  | .mem m args => arityOk m args = true ∧ (∀ a ∈ args, uniformP P a = true)
+  | .set _ _ => False
+
+/-- the receiver named by a Spec outcome is again a string (resp. bytes) -/
+def SeqShape (mk : Bytes → Val) : SOut → Prop
+  | .ok _ y => ∃ s', y = mk s'
+  | .either _ y => ∃ s', y = mk s'
+  | .reject _ => True
+
+theorem str_step_refines (P) (s : Bytes) (op : Op) (hg : OpGoodS P op) :
+    ∃ o, specOp (Val.str s) op = some o ∧ Sat (stepRes (Val.str s) op) o ∧ SeqShape Val.str o := by
+  have huni : uniform (Val.str s) = true := by simp [uniform, uniformP]
+  cases op with
+  | set r a => exact absurd hg id
+  | mem m args =>
+    obtain ⟨har, hargs⟩ := hg
+    cases m with
+    | «at» =>
+      match args, har with
+      | [p], _ =>
+        refine ⟨Spec.seqAt (Val.str s) s p, by simp [specOp, Spec.specMember, Spec.specAt, huni], str_at_index_contract P s p (hargs p (by simp)), ?_⟩
+        unfold Spec.seqAt; split
+        · split
+          · exact ⟨s, rfl⟩
+          · trivial
+        · trivial
+    | delete =>
+      match args, har with
+      | [p], _ =>
+        refine ⟨Spec.seqDelete Val.str s p, by simp [specOp, Spec.specMember, Spec.specDelete, huni],
+          (seq_delete_refines P s p false (hargs p (by simp))).1, ?_⟩
+        unfold Spec.seqDelete; split
+        · trivial
+        · exact ⟨_, rfl⟩
+    | count =>
+      match args, har with
+      | [], _ =>
+        exact ⟨.ok (.int (Int64.ofNat s.length)) (Val.str s), by simp [specOp, Spec.specMember, Spec.specCount, huni], rfl, s, rfl⟩
+    | put =>
+      match args, har with
+      | [p, x], _ =>
+        refine ⟨Spec.seqPut Val.str s p x, by simp [specOp, Spec.specMember, Spec.specPut, huni],
+          (seq_put_refines P s p x false (hargs p (by simp)) (hargs x (by simp))).1, ?_⟩
+        unfold Spec.seqPut; split
+        · trivial
+        · split
+          · exact ⟨_, rfl⟩
+          · trivial
+    | insert =>
+      match args, har with
+      | [p, x], _ =>
+        refine ⟨Spec.seqInsert (Val.str s) Val.str false s p x, by simp [specOp, Spec.specMember, Spec.specInsert, huni],
+          (seq_insert_refines P s p x false (hargs p (by simp)) (hargs x (by simp))).1, ?_⟩
+        unfold Spec.seqInsert; split
+        · trivial
+        · split
+          · exact ⟨s, rfl⟩
+          · split
+            · exact ⟨_, rfl⟩
+            · trivial
+    | concat =>
+      match args, har with
+      | [x], _ =>
+        refine ⟨Spec.seqConcat (Val.str s) Val.str false s x, by simp [specOp, Spec.specMember, Spec.specConcat, huni],
+          (seq_concat_refines P s x false (hargs x (by simp))).1, ?_⟩
+        unfold Spec.seqConcat; split
+        · exact ⟨s, rfl⟩
+        · split
+          · exact ⟨_, rfl⟩
+          · trivial
+
+/-- **str_ops_refine_spec** — the op-sequence theorem for a string variable receiver: for every list of member calls (any position
+values, any uniform arguments) the run is one the specification allows (`SpecRun`), the variable stays a string variable after every
+step, and before every step the model's outcome is the Spec's (`Sat`). Induction over the operation list. -/
+theorem str_ops_refine_spec (P : List Ty → Bool) :
+    ∀ (ops : List Op) (s : Bytes), (∀ op ∈ ops, OpGoodS P op) →
+      SpecRun (Val.str s) ops (run (Val.str s) ops) ∧ (∃ s', run (Val.str s) ops = Val.str s') ∧
+      (∀ (pre : List Op) (op : Op) (post : List Op), ops = pre ++ op :: post →
+        ∃ s' o, run (Val.str s) pre = Val.str s' ∧ specOp (Val.str s') op = some o ∧ Sat (stepRes (Val.str s') op) o) := by
+  intro ops
+  induction ops with
+  | nil =>
+    intro s _
+    refine ⟨.nil _, ⟨s, rfl⟩, ?_⟩
+    intro pre op post h; simp at h
+  | cons op ops ih =>
+    intro s hg
+    obtain ⟨o, hspec, hsat, hshape⟩ := str_step_refines P s op (hg op (by simp))
+    have hnext := sat_next _ op o hsat
+    have hs1 : ∃ s1, applyOp (Val.str s) op = Val.str s1 := by
+      cases o with
+      | ok r y => obtain ⟨s', hy⟩ := hshape; exact ⟨s', by rw [← hy]; exact hnext⟩
+      | reject e => exact ⟨s, hnext⟩
+      | either r y =>
+        obtain ⟨s', hy⟩ := hshape
+        rcases hnext with h | h
+        · exact ⟨s', by rw [← hy]; exact h⟩
+        · exact ⟨s, h⟩
+    obtain ⟨s1, he1⟩ := hs1
+    obtain ⟨ih1, ih2, ih3⟩ := ih s1 (fun op' h => hg op' (by simp [h]))
+    have hrun : ∀ l, run (Val.str s) (op :: l) = run (Val.str s1) l := by
+      intro l; simp [run, he1]
+    refine ⟨?_, ?_, ?_⟩
+    · rw [hrun]
+      exact .cons _ op ops _ _ o hspec (by rw [← he1]; exact hnext) ih1
+    · rw [hrun]; exact ih2
+    · intro pre op' post hsplit
+      cases pre with
+      | nil =>
+        simp at hsplit
+        obtain ⟨rfl, rfl⟩ := hsplit
+        exact ⟨s, o, rfl, hspec, hsat⟩
+      | cons q pre' =>
+        simp at hsplit
+        obtain ⟨rfl, hsplit⟩ := hsplit
+        rw [hrun]
+        exact ih3 pre' op' post hsplit
+
+theorem raw_step_refines (P) (s : Bytes) (op : Op) (hg : OpGoodS P op) :
+    ∃ o, specOp (Val.raw s) op = some o ∧ Sat (stepRes (Val.raw s) op) o ∧ SeqShape Val.raw o := by
+  have huni : uniform (Val.raw s) = true := by simp [uniform, uniformP]
+  cases op with
+  | set r a => exact absurd hg id
+  | mem m args =>
+    obtain ⟨har, hargs⟩ := hg
+    cases m with
+    | «at» =>
+      match args, har with
+      | [p], _ =>
+        refine ⟨Spec.seqAt (Val.raw s) s p, by simp [specOp, Spec.specMember, Spec.specAt, huni], raw_at_refines P s p (hargs p (by simp)), ?_⟩
+        unfold Spec.seqAt; split
+        · split
+          · exact ⟨s, rfl⟩
+          · trivial
+        · trivial
+    | delete =>
+      match args, har with
+      | [p], _ =>
+        refine ⟨Spec.seqDelete Val.raw s p, by simp [specOp, Spec.specMember, Spec.specDelete, huni],
+          (seq_delete_refines P s p false (hargs p (by simp))).2, ?_⟩
+        unfold Spec.seqDelete; split
+        · trivial
+        · exact ⟨_, rfl⟩
+    | count =>
+      match args, har with
+      | [], _ =>
+        exact ⟨.ok (.int (Int64.ofNat s.length)) (Val.raw s), by simp [specOp, Spec.specMember, Spec.specCount, huni], rfl, s, rfl⟩
+    | put =>
+      match args, har with
+      | [p, x], _ =>
+        refine ⟨Spec.seqPut Val.raw s p x, by simp [specOp, Spec.specMember, Spec.specPut, huni],
+          (seq_put_refines P s p x false (hargs p (by simp)) (hargs x (by simp))).2, ?_⟩
+        unfold Spec.seqPut; split
+        · trivial
+        · split
+          · exact ⟨_, rfl⟩
+          · trivial
+    | insert =>
+      match args, har with
+      | [p, x], _ =>
+        refine ⟨Spec.seqInsert (Val.raw s) Val.raw true s p x, by simp [specOp, Spec.specMember, Spec.specInsert, huni],
+          (seq_insert_refines P s p x false (hargs p (by simp)) (hargs x (by simp))).2, ?_⟩
+        unfold Spec.seqInsert; split
+        · trivial
+        · split
+          · exact ⟨s, rfl⟩
+          · split
+            · exact ⟨_, rfl⟩
+            · trivial
+    | concat =>
+      match args, har with
+      | [x], _ =>
+        refine ⟨Spec.seqConcat (Val.raw s) Val.raw true s x, by simp [specOp, Spec.specMember, Spec.specConcat, huni],
+          (seq_concat_refines P s x false (hargs x (by simp))).2, ?_⟩
+        unfold Spec.seqConcat; split
+        · exact ⟨s, rfl⟩
+        · split
+          · exact ⟨_, rfl⟩
+          · trivial
+
+/-- **raw_ops_refine_spec** — the op-sequence theorem for a bytes value receiver: for every list of member calls (any position
+values, any uniform arguments) the run is one the specification allows (`SpecRun`), the variable stays a bytes value after every
+step, and before every step the model's outcome is the Spec's (`Sat`). Induction over the operation list. -/
+theorem raw_ops_refine_spec (P : List Ty → Bool) :
+    ∀ (ops : List Op) (s : Bytes), (∀ op ∈ ops, OpGoodS P op) →
+      SpecRun (Val.raw s) ops (run (Val.raw s) ops) ∧ (∃ s', run (Val.raw s) ops = Val.raw s') ∧
+      (∀ (pre : List Op) (op : Op) (post : List Op), ops = pre ++ op :: post →
+        ∃ s' o, run (Val.raw s) pre = Val.raw s' ∧ specOp (Val.raw s') op = some o ∧ Sat (stepRes (Val.raw s') op) o) := by
+  intro ops
+  induction ops with
+  | nil =>
+    intro s _
+    refine ⟨.nil _, ⟨s, rfl⟩, ?_⟩
+    intro pre op post h; simp at h
+  | cons op ops ih =>
+    intro s hg
+    obtain ⟨o, hspec, hsat, hshape⟩ := raw_step_refines P s op (hg op (by simp))
+    have hnext := sat_next _ op o hsat
+    have hs1 : ∃ s1, applyOp (Val.raw s) op = Val.raw s1 := by
+      cases o with
+      | ok r y => obtain ⟨s', hy⟩ := hshape; exact ⟨s', by rw [← hy]; exact hnext⟩
+      | reject e => exact ⟨s, hnext⟩
+      | either r y =>
+        obtain ⟨s', hy⟩ := hshape
+        rcases hnext with h | h
+        · exact ⟨s', by rw [← hy]; exact h⟩
+        · exact ⟨s, h⟩
+    obtain ⟨s1, he1⟩ := hs1
+    obtain ⟨ih1, ih2, ih3⟩ := ih s1 (fun op' h => hg op' (by simp [h]))
+    have hrun : ∀ l, run (Val.raw s) (op :: l) = run (Val.raw s1) l := by
+      intro l; simp [run, he1]
+    refine ⟨?_, ?_, ?_⟩
+    · rw [hrun]
+      exact .cons _ op ops _ _ o hspec (by rw [← he1]; exact hnext) ih1
+    · rw [hrun]; exact ih2
+    · intro pre op' post hsplit
+      cases pre with
+      | nil =>
+        simp at hsplit
+        obtain ⟨rfl, rfl⟩ := hsplit
+        exact ⟨s, o, rfl, hspec, hsat⟩
+      | cons q pre' =>
+        simp at hsplit
+        obtain ⟨rfl, hsplit⟩ := hsplit
+        rw [hrun]
+        exact ih3 pre' op' post hsplit
+
+example : (run (.str [97, 98]) [.mem .concat [.str [120]], .mem .put [.int 0, .int 65], .mem .delete [.int 9], .mem .insert [.int 1, .int 66]]
+      == .str [65, 66, 98, 120]) = true ∧
+    SpecRun (.str [97, 98]) [.mem .concat [.str [120]], .mem .put [.int 0, .int 65], .mem .delete [.int 9], .mem .insert [.int 1, .int 66]]
+      (run (.str [97, 98]) [.mem .concat [.str [120]], .mem .put [.int 0, .int 65], .mem .delete [.int 9], .mem .insert [.int 1, .int 66]]) := by
+  refine ⟨by decide, (str_ops_refine_spec onlyIS _ _ ?_).1⟩
+  intro op h
+  simp at h
+  rcases h with rfl | rfl | rfl | rfl <;> exact ⟨rfl, fun a ha => by simp at ha; first | (rcases ha with rfl | rfl <;> rfl) | (subst ha; rfl)⟩
+
+/-! ### what the receiver expression designates: storage, constant, temporary, handed-through operand -/
+
+/-- **handed_through_receiver_unchanged** (`MemberExpression::receiver()`, 876bec0). A member call whose receiver expression
+merely hands an lvalue through (`(s + null).concat(x)`, …) or yields a temporary works on a copy: for EVERY member, receiver
+value and argument list, the operand keeps its value, the result is the one the in-place call on a variable computes, and
+the error (if any) is the same. -/
+theorem handed_through_receiver_unchanged (m : Member) (recv : Val) (args : List Val) :
+    (∀ r x', memberCallK .handedThrough m recv args = .ok (r, x') →
+      x' = recv ∧ ∃ y, memberCallK .storage m recv args = .ok (r, y)) ∧
+    (∀ c a, memberCallK .handedThrough m recv args = .err c a ↔ memberCallK .storage m recv args = .err c a) ∧
+    memberCallK .temporary m recv args = memberCallK .handedThrough m recv args := by
+  unfold memberCallK
+  simp only
+  cases h : memberCall m recv args false with
+  | ok p => obtain ⟨r0, y0⟩ := p; simp
+  | err c a => simp
+  | haz e => simp
+  | unmodelled => simp
+
+theorem const_as_handed_str (m : Member) (s : Bytes) (args : List Val) :
+    memberCallK .constant m (.str s) args = memberCallK .handedThrough m (.str s) args := by
+  unfold memberCallK memberCall
+  simp only
+  split
+  · unfold mAt; simp only [Val.isNull, Bool.false_or]; repeat' split
+    all_goals first | rfl | simp_all [idxErr]
+  · unfold mPut; simp only [Val.isNull, Bool.false_or]; repeat' split
+    all_goals first | rfl | simp_all [idxErr, tyMismatch]
+  · unfold mInsert; simp only [Val.isNull, Bool.false_or]; repeat' split
+    all_goals first | rfl | simp_all [idxErr]
+  · unfold mDelete; simp only [Val.isNull, Bool.false_or]; repeat' split
+    all_goals first | rfl | simp_all [idxErr]
+  · unfold mConcat concatRawCase; simp only [Val.isNull, Val.type, Ty.str, Val.asStr, Val.asRaw]; repeat' split
+    all_goals first | rfl | simp_all
+  · rfl
+  · rfl
+
+theorem const_as_handed_null (m : Member) (args : List Val) :
+    memberCallK .constant m (.null Ty.none) args = memberCallK .handedThrough m (.null Ty.none) args := by
+  unfold memberCallK memberCall
+  simp only
+  split
+  · rfl
+  · rfl
+  · rfl
+  · rfl
+  · unfold mConcat; simp only [Val.isNull, Val.type, Ty.none]; repeat' split
+    all_goals first | rfl | simp_all
+  · rfl
+  · rfl
+
+/-- **constant_receiver_unchanged**. The only constants that reach the built-in members are string literals and the literal
+`null`; a member call on one never writes to the constant (the `isConst()` paths of member_{put,insert,delete,concat}.cpp;
+`null.concat`: a40085e) and returns exactly what the call on a variable holding that value returns — so the refinement
+theorems for string variables (`seq_*_refines`) carry over to constant string receivers, result for result. -/
+theorem constant_receiver_unchanged (m : Member) (recv : Val) (args : List Val)
+    (hc : (∃ s, recv = .str s) ∨ recv = .null Ty.none) :
+    (∀ r x', memberCallK .constant m recv args = .ok (r, x') →
+      x' = recv ∧ ∃ y, memberCallK .storage m recv args = .ok (r, y)) ∧
+    (∀ c a, memberCallK .constant m recv args = .err c a ↔ memberCallK .storage m recv args = .err c a) := by
+  have e : memberCallK .constant m recv args = memberCallK .handedThrough m recv args := by
+    rcases hc with ⟨s, rfl⟩ | rfl
+    · exact const_as_handed_str m s args
+    · exact const_as_handed_null m args
+  rw [e]
+  exact ⟨(handed_through_receiver_unchanged m recv args).1, (handed_through_receiver_unchanged m recv args).2.1⟩
+
+/-- constant string receivers refine the Spec's result: `"abc".put(p, c)` returns what `seqPut` says, the constant is untouched -/
+theorem const_str_put_refines (P) (s : Bytes) (p x : Val) (hp : UniformIn P p) (hx : UniformIn P x) :
+    match Spec.seqPut Val.str s p x with
+    | .ok r _ => memberCallK .constant .put (.str s) [p, x] = .ok (r, .str s)
+    | .reject .index => memberCallK .constant .put (.str s) [p, x] = .err Gen.EXC_RT_INDEX_RANGE_S
+    | .reject .range => memberCallK .constant .put (.str s) [p, x] = .err Gen.EXC_RT_OUT_OF_RANGE
+    | .reject _ => ∃ c a, memberCallK .constant .put (.str s) [p, x] = .err c a
+    | .either _ _ => True := by
+  have h := (seq_put_refines P s p x false hp hx).1
+  have hk := constant_receiver_unchanged .put (.str s) [p, x] (Or.inl ⟨s, rfl⟩)
+  have hst : memberCallK .storage .put (.str s) [p, x] = mPut (.str s) p x false := rfl
+  rw [hst] at hk
+  cases ho : Spec.seqPut Val.str s p x with
+  | ok r y =>
+    rw [ho] at h; simp only [Sat] at h
+    simp only
+    cases hcst : memberCallK .constant .put (.str s) [p, x] with
+    | ok q =>
+      obtain ⟨r', x'⟩ := q
+      obtain ⟨e1, y', e2⟩ := hk.1 r' x' hcst
+      rw [h] at e2; injection e2 with e2; injection e2 with e3 _
+      rw [e1, e3]
+    | err c a => have := (hk.2 c a).1 hcst; rw [h] at this; simp at this
+    | haz e =>
+      exfalso
+      have : memberCallK .constant .put (.str s) [p, x] = memberCallK .handedThrough .put (.str s) [p, x] := const_as_handed_str _ _ _
+      rw [this] at hcst
+      have hm : memberCall .put (.str s) [p, x] false = .ok (r, y) := h
+      simp [memberCallK, hm] at hcst
+    | unmodelled =>
+      exfalso
+      have : memberCallK .constant .put (.str s) [p, x] = memberCallK .handedThrough .put (.str s) [p, x] := const_as_handed_str _ _ _
+      rw [this] at hcst
+      have hm : memberCall .put (.str s) [p, x] false = .ok (r, y) := h
+      simp [memberCallK, hm] at hcst
+  | reject e =>
+    rw [ho] at h
+    cases e <;> simp only [Sat] at h <;> simp only
+    · exact (hk.2 _ _).2 h
+    · obtain ⟨c, a, h⟩ := h; exact ⟨c, a, (hk.2 _ _).2 h⟩
+    · exact (hk.2 _ _).2 h
+    · obtain ⟨c, a, h⟩ := h; exact ⟨c, a, (hk.2 _ _).2 h⟩
+  | either r y => trivial
+
+example : memberCallK .handedThrough .concat (.str [97, 98]) [.str [120]] = .ok (.str [97, 98, 120], .str [97, 98]) ∧
+    memberCallK .storage .concat (.str [97, 98]) [.str [120]] = .ok (.str [97, 98, 120], .str [97, 98, 120]) ∧
+    memberCallK .constant .concat (.null Ty.none) [.int 65] = .ok (.str [65], .null Ty.none) ∧
+    memberCallK .handedThrough .delete (ti1 [.int 1, .int 2]) [.int 0] = .ok (ti1 [.int 2], ti1 [.int 1, .int 2]) := by
+  refine ⟨by rfl, by rfl, by rfl, by rfl⟩
 
 /-! ### tuples keep their structure -/
 
@@ -1892,6 +2517,47 @@ theorem tuple_structure_fixed (P) (decl : List Ty) (items : List Val) (rank : Na
 example : (match stepRes (tIS 1) (.set 1 (.int 9)) with | .ok (r, u) => r == tIS 9 && u == tIS 9 | _ => false) = true := by decide
 example : (match stepRes (tIS 1) (.set 2 (.int 9)) with | .err c _ => c == Gen.EXC_RT_TYPE_MISMATCH_S | _ => false) = true := by decide
 example : (match stepRes (tIS 1) (.set 3 (.int 9)) with | .err c _ => c == Gen.EXC_RT_INDEX_RANGE_S | _ => false) = true := by decide
+
+/-- **tup_ops_refine_spec** — sequences of `set@` on a uniform tuple (ranks below 2^32, uniform canonical arguments): the run
+is one the Spec allows, the variable is after every step a uniform tuple with the SAME declaration and number of items, and
+each step's outcome is the Spec's. -/
+theorem tup_ops_refine_spec (P : List Ty → Bool) (hinj : Inj P) (decl : List Ty) :
+    ∀ (ops : List Op) (items : List Val), UniformIn P (.tup decl items) → items.length < 4294967295 →
+      (∀ op ∈ ops, ∃ rank a, op = .set rank a ∧ rank < 4294967296 ∧ UniformIn P a ∧ canonTy a.type = true) →
+      SpecRun (.tup decl items) ops (run (.tup decl items) ops) ∧
+      ∃ items', run (.tup decl items) ops = .tup decl items' ∧ items'.length = items.length ∧ UniformIn P (.tup decl items') := by
+  intro ops
+  induction ops with
+  | nil => intro items hu _ _; exact ⟨.nil _, items, rfl, rfl, hu⟩
+  | cons op ops ih =>
+    intro items hu hlen hg
+    obtain ⟨rank, a, rfl, hr, ha, hca⟩ := hg op (by simp)
+    obtain ⟨o, hspec, hsat⟩ := set_refines P hinj decl items rank a hu ha hca hr hlen
+    have hnext := sat_next (.tup decl items) (.set rank a) o hsat
+    have hstep : ∃ items1, applyOp (.tup decl items) (.set rank a) = .tup decl items1 ∧ items1.length = items.length ∧
+        UniformIn P (.tup decl items1) := by
+      unfold applyOp
+      split
+      · rename_i r x' he
+        obtain ⟨_, h2, items', h3, h4, _⟩ := tuple_structure_fixed P decl items rank a r x' hu ha he
+        exact ⟨items', h3, h4, by rw [← h3]; exact h2⟩
+      · exact ⟨items, rfl, rfl, hu⟩
+    obtain ⟨items1, he1, hl1, hu1⟩ := hstep
+    obtain ⟨ih1, items', ih2, ih3, ih4⟩ := ih items1 hu1 (by omega) (fun op' h => hg op' (by simp [h]))
+    have hrun : run (.tup decl items) (.set rank a :: ops) = run (.tup decl items1) ops := by simp [run, he1]
+    refine ⟨?_, items', by rw [hrun]; exact ih2, by omega, ih4⟩
+    rw [hrun]
+    exact .cons _ _ ops _ _ o hspec (by rw [← he1]; exact hnext) ih1
+
+example : SpecRun (tIS 1) [.set 1 (.num 0x4004000000000000), .set 3 (.int 1), .set 2 (.str [98])]
+    (run (tIS 1) [.set 1 (.num 0x4004000000000000), .set 3 (.int 1), .set 2 (.str [98])]) := by
+  refine (tup_ops_refine_spec onlyIS inj_onlyIS declIS _ _ (by decide) (by decide) ?_).1
+  intro op h
+  simp at h
+  rcases h with rfl | rfl | rfl
+  · exact ⟨1, _, rfl, by decide, by decide, by decide⟩
+  · exact ⟨3, _, rfl, by decide, by decide, by decide⟩
+  · exact ⟨2, _, rfl, by decide, by decide, by decide⟩
 
 /-! ### forall -/
 
